@@ -166,6 +166,8 @@ pub enum Expr {
     ListLit(Vec<Expr>),
     Index(Box<Expr>, Box<Expr>),
     Agg(AggKind, bool, Option<Box<Expr>>),
+    /// `$name`, with the value it is bound to (C12/C34 statements carry their parameters)
+    Param(String, V),
 }
 
 #[derive(Clone, Debug)]
@@ -223,6 +225,7 @@ pub fn v_lit(v: &V) -> String {
 pub fn render_expr(e: &Expr) -> String {
     match e {
         Expr::Lit(v) => v_lit(v),
+        Expr::Param(n, _) => format!("${n}"),
         Expr::Var(n) => n.clone(),
         Expr::Prop(v, k) => format!("{v}.{k}"),
         Expr::Bin(op, l, r) => format!("({} {op} {})", render_expr(l), render_expr(r)),
@@ -254,7 +257,7 @@ pub fn render_expr(e: &Expr) -> String {
     }
 }
 
-fn render_node(n: &NodePat) -> String {
+pub fn render_node(n: &NodePat) -> String {
     let labels: String = n.labels.iter().map(|l| format!(":{l}")).collect();
     let props = if n.props.is_empty() { String::new() } else { format!(" {{{}}}", n.props.iter().map(|(k, v)| format!("{k}: {}", v_lit(v))).collect::<Vec<_>>().join(", ")) };
     format!("({}{labels}{props})", n.var.clone().unwrap_or_default())
@@ -301,20 +304,24 @@ fn render_projection(kw: &str, p: &Projection) -> String {
     s
 }
 
+pub fn render_clause(c: &Clause) -> String {
+    match c {
+        Clause::Match { optional, patterns, where_ } => {
+            let mut s = format!("{}MATCH {}", if *optional { "OPTIONAL " } else { "" }, patterns.iter().map(render_path).collect::<Vec<_>>().join(", "));
+            if let Some(w) = where_ {
+                s.push_str(&format!(" WHERE {}", render_expr(w)));
+            }
+            s
+        }
+        Clause::Unwind { expr, var } => format!("UNWIND {} AS {var}", render_expr(expr)),
+        Clause::With(p) => render_projection("WITH", p),
+    }
+}
+
 pub fn render_single(q: &SingleQuery) -> String {
     let mut parts: Vec<String> = Vec::new();
     for c in &q.clauses {
-        parts.push(match c {
-            Clause::Match { optional, patterns, where_ } => {
-                let mut s = format!("{}MATCH {}", if *optional { "OPTIONAL " } else { "" }, patterns.iter().map(render_path).collect::<Vec<_>>().join(", "));
-                if let Some(w) = where_ {
-                    s.push_str(&format!(" WHERE {}", render_expr(w)));
-                }
-                s
-            }
-            Clause::Unwind { expr, var } => format!("UNWIND {} AS {var}", render_expr(expr)),
-            Clause::With(p) => render_projection("WITH", p),
-        });
+        parts.push(render_clause(c));
     }
     parts.push(render_projection("RETURN", &q.ret));
     parts.join(" ")
@@ -485,6 +492,7 @@ impl Ctx<'_> {
     pub fn eval(&self, e: &Expr, row: &Row) -> V {
         match e {
             Expr::Lit(v) => v.clone(),
+            Expr::Param(_, v) => v.clone(),
             Expr::Var(n) => row.get(n).cloned().unwrap_or(V::Null),
             Expr::Prop(v, k) => self.prop_of(row.get(v).unwrap_or(&V::Null), k),
             Expr::Not(x) => b3(truth(&self.eval(x, row)).map(|b| !b)),
@@ -951,7 +959,7 @@ impl Ctx<'_> {
         });
     }
 
-    fn rows_after(&self, clauses: &[Clause]) -> Vec<Row> {
+    pub fn rows_after(&self, clauses: &[Clause]) -> Vec<Row> {
         let mut rows: Vec<Row> = vec![Row::new()];
         for (ci, c) in clauses.iter().enumerate() {
             rows = match c {
